@@ -408,10 +408,32 @@ func (r *Reader) Resolve(obj core.Object) (core.Object, error) {
 	return obj, nil
 }
 
+// maxResolveDepth bounds the nesting ResolveDeep will follow.
+const maxResolveDepth = 100
+
 // ResolveDeep recursively resolves all indirect references in an object
 // Implements pages.ObjectResolver interface
+//
+// PDF object graphs are cyclic (a page's /Parent refers back to the node whose /Kids
+// lists the page), so a reference that is already being resolved is reported as an
+// error instead of being followed again, and the nesting depth is limited.
 func (r *Reader) ResolveDeep(obj core.Object) (core.Object, error) {
+	return r.resolveDeep(obj, make(map[int]bool), 0)
+}
+
+func (r *Reader) resolveDeep(obj core.Object, resolving map[int]bool, depth int) (core.Object, error) {
+	if depth > maxResolveDepth {
+		return nil, fmt.Errorf("maximum reference nesting depth (%d) exceeded", maxResolveDepth)
+	}
+
 	// First resolve if it's a reference
+	if ref, ok := obj.(core.IndirectRef); ok {
+		if resolving[ref.Number] {
+			return nil, fmt.Errorf("circular reference to object %d", ref.Number)
+		}
+		resolving[ref.Number] = true
+		defer delete(resolving, ref.Number)
+	}
 	resolved, err := r.Resolve(obj)
 	if err != nil {
 		return nil, err
@@ -422,7 +444,7 @@ func (r *Reader) ResolveDeep(obj core.Object) (core.Object, error) {
 	case core.Array:
 		result := make(core.Array, len(v))
 		for i, elem := range v {
-			resolvedElem, err := r.ResolveDeep(elem)
+			resolvedElem, err := r.resolveDeep(elem, resolving, depth+1)
 			if err != nil {
 				return nil, err
 			}
@@ -433,7 +455,7 @@ func (r *Reader) ResolveDeep(obj core.Object) (core.Object, error) {
 	case core.Dict:
 		result := make(core.Dict)
 		for key, val := range v {
-			resolvedVal, err := r.ResolveDeep(val)
+			resolvedVal, err := r.resolveDeep(val, resolving, depth+1)
 			if err != nil {
 				return nil, err
 			}
